@@ -1547,12 +1547,54 @@ theorem rateF32_spec (r : Rat) :
     rateF32 (.val r) = .val (rn24 r) ∧ rateF32 .nan = .nan ∧ rn24 0 = 0 ∧ rn24 1 = 1 :=
   ⟨rfl, rfl, rn24_zero_one.1, rn24_zero_one.2⟩
 
-theorem mat_get_map {α β} (M : Mat α) (f : α → β) (d : α) (d' : β) (i j : Nat)
-    (hi : i < M.length) (hj : j < (M.getD i []).length) :
+theorem mat_get_map' {α β} (M : Mat α) (f : α → β) (d : α) (d' : β) (hd : f d = d') (i j : Nat) :
     Mat.get (M.map fun row => row.map f) d' i j = f (M.get d i j) := by
-  simp only [Mat.get, List.getD_eq_getElem?_getD] at hj ⊢
-  simp only [List.getElem?_map, List.getElem?_eq_getElem hi, Option.map_some, Option.getD_some]
-    at hj ⊢
-  simp [List.getElem?_eq_getElem hj]
+  simp only [Mat.get, List.getD_eq_getElem?_getD, List.getElem?_map]
+  cases hM : M[i]? with
+  | none => simp [hd]
+  | some row =>
+    simp only [Option.map_some, Option.getD_some, List.getElem?_map]
+    cases hr : row[j]? with
+    | none => simp [hd]
+    | some v => simp
+
+/-- **range of the ECA analysis matrix in floating point**: float32 rates stored in the float64
+matrix and symmetrised by `directed`/`mean`/`max`/`min` — every entry is NaN or in `[0,1]` -/
+theorem ecaAnalysisF32_range (w : Window) (ts : List Rat) (E : Mat Bool) (n : Nat) (tm lag : Rat)
+    (s : Symm) (hs : s = .directed ∨ s = .mean ∨ s = .max ∨ s = .min)
+    (A : Mat (Option Rat)) (h : ecaAnalysisF32 w ts E n tm lag s = some A)
+    (i j : Nat) (hi : i < n) (hj : j < n) (r : Rat) (hr : A.get none i j = some r) :
+    0 ≤ r ∧ r ≤ 1 := by
+  unfold ecaAnalysisF32 at h
+  cases hM : ecaMatrix w ts E n tm lag with
+  | none => simp [hM] at h
+  | some M =>
+    simp only [hM, Option.map_some, Option.some.injEq] at h
+    subst h
+    rw [symmetrize_entry n none none (symmOpN s) _ i j hi hj,
+      mat_get_map' M (fun e => e.map rn24) none none rfl i j,
+      mat_get_map' M (fun e => e.map rn24) none none rfl j i] at hr
+    have rng : ∀ a b, a < n → b < n → ∀ v, (M.get none a b).map rn24 = some v → 0 ≤ v ∧ v ≤ 1 := by
+      intro a b ha hb v hv
+      cases hx : M.get none a b with
+      | none => rw [hx] at hv; cases hv
+      | some x =>
+        rw [hx] at hv
+        simp only [Option.map_some, Option.some.injEq] at hv
+        subst hv
+        have := ecaMatrix_range w ts E n tm lag M hM a b ha hb x hx
+        exact ⟨rn24_nonneg x, rn24_le_one x this.2⟩
+    rcases hs with rfl | hs
+    · exact rng i j hi hj r hr
+    · cases ha : (M.get none i j).map rn24 with
+      | none => rw [ha] at hr; rcases hs with rfl | rfl | rfl <;> cases hr
+      | some a =>
+        cases hb : (M.get none j i).map rn24 with
+        | none => rw [ha, hb] at hr; rcases hs with rfl | rfl | rfl <;> cases hr
+        | some b =>
+          rw [ha, hb, (symmOpN_spec s a b).1] at hr
+          simp only [Option.some.injEq] at hr
+          subst hr
+          exact symmOp_between s hs a b 0 1 (rng i j hi hj a ha) (rng j i hj hi b hb)
 
 end Pyunicorn.Events
